@@ -11,3 +11,5 @@ import XzVerif.Props.C06
 #print axioms Props.C06.C06_size_contract_write_bintree
 #print axioms Props.C06.C06_close_and_roundtrip_hashtable4
 #print axioms Props.C06.C06_close_and_roundtrip_bintree
+#print axioms Props.C06.lazy1_of_batch
+#print axioms Props.C06.C06_roundtrip_lazy_reader_hashtable4
